@@ -145,6 +145,11 @@ def rule_wctx(prog, em):
     return obs
 
 
+def hm_method_name(c):
+    m = re.match(r'^std::collections::HashMap::<K, V, S, A>::(\w+)$', c.callee or '')
+    return m.group(1) if m else None
+
+
 def _optype_source(b, pl):
     """the call whose result the discriminated operator type comes from: `get_op_type(op)?`, or the type field of the
     whole record read in one lookup (`let config = get(op)?; match config.1 { .. }`)"""
@@ -175,6 +180,12 @@ def rule_ctx_store(prog, em):
         ins = [c for c in b.live_calls if (c.callee or '').endswith('::insert') and 'context::ContextValue' in ' '.join(c.term['arg_tys'])]
         key = 'CTXSTORE|%s' % b.name
         others = [c for c in b.live_calls if re.match(r'^std::collections::HashMap::<K, V, S, A>::(remove|clear|entry|retain|extend|get_mut|drain)$', c.callee or '')]
+        if bid not in from_exec and not (len(ins) == 1 and not others and b.reachable_from(0) and not any(b.blocks[x]['term']['k'] == 'return' for x in b.reachable_from(0, avoid={ins[0].bb})) ):
+            # another public operation on the context (bulk `extend`, `remove`, `clear`): not the writer an assignment goes
+            # through — no evaluation can reach it — so the clause "x = e binds x to the value of e" does not speak about it
+            if any(hm_method_name(c) for c in b.live_calls):
+                obs.append(ok('CTXSTORE', key, '%s mutates the context map but is not reachable from the evaluator: another operation of the context API' % b.name, b.where()))
+                continue
         if not ins and others and bid not in from_exec:
             # an un-binding API (remove / clear): a different operation from the one the property speaks about, as long as
             # no evaluation can reach it
